@@ -67,12 +67,23 @@ func conjuncts(e ast.Expr) []ast.Expr {
 // shiftPredicate normalises a condition mentioning HasPipeSlot: returns the canonical conjunct set.
 // boolLocal resolves a condition that is a boolean local with a single definition to that definition
 // (`pipedFirst := !args.HasPipeSlot && pipedArg != nil; if pipedFirst {`), also under a negation.
-func boolLocal(f *an.Fn, cond ast.Expr) ast.Expr {
+func boolLocal(f *an.Fn, cond ast.Expr) ast.Expr { return boolLocalN(f, cond, 0) }
+
+func boolLocalN(f *an.Fn, cond ast.Expr, depth int) ast.Expr {
 	// a predicate method/function extracted from the condition: `if a.hasImplicitPipedArg() {` with
-	// `func (a *Arguments) hasImplicitPipedArg() bool { return a.pipedVal != nil && !a.args.HasPipeSlot }`
-	if call, ok := an.Unparen(cond).(*ast.CallExpr); ok && f.P != nil && len(call.Args) == 0 {
+	// `func (a *Arguments) hasImplicitPipedArg() bool { return a.pipedVal != nil && !a.args.HasPipeSlot }`,
+	// or `pipedIsFirstArg(a.args, a.pipedVal)` with the two passed on as they are
+	if call, ok := an.Unparen(cond).(*ast.CallExpr); ok && f.P != nil && depth < 3 {
 		if h := f.P.NewHelperCallee(f, call); h != nil && h.Body != nil && len(h.Body.List) == 1 {
-			if ret, ok := h.Body.List[0].(*ast.ReturnStmt); ok && len(ret.Results) == 1 {
+			plain := true
+			for _, a := range call.Args {
+				switch an.Unparen(a).(type) {
+				case *ast.Ident, *ast.SelectorExpr:
+				default:
+					plain = false
+				}
+			}
+			if ret, ok := h.Body.List[0].(*ast.ReturnStmt); ok && len(ret.Results) == 1 && plain {
 				return ret.Results[0]
 			}
 		}
@@ -89,8 +100,8 @@ func boolLocal(f *an.Fn, cond ast.Expr) ast.Expr {
 		return cond
 	}
 	defs := an.LocalDefs(f, o)
-	if len(defs) == 1 && defs[0] != nil {
-		return defs[0]
+	if len(defs) == 1 && defs[0] != nil && depth < 3 {
+		return boolLocalN(f, defs[0], depth+1)
 	}
 	return cond
 }
@@ -125,9 +136,15 @@ func shiftPredicate(p *an.Prog, f *an.Fn, cond ast.Expr) (string, bool) {
 					continue
 				}
 				if id, ok := an.Unparen(x.X).(*ast.Ident); ok {
-					if _, isParam := an.IsParam(f, an.ObjOf(info, id)); isParam && an.TypeName(an.ObjOf(info, id).Type()) == "*reflect.Value" {
-						parts = append(parts, "piped!=nil")
-						continue
+					if o := an.ObjOf(info, id); o != nil && an.TypeName(o.Type()) == "*reflect.Value" {
+						owner := f
+						if g := p.OwnerFn(o.Pos()); g != nil {
+							owner = g // (the parameter of a predicate helper the test was moved into)
+						}
+						if _, isParam := an.IsParam(owner, o); isParam {
+							parts = append(parts, "piped!=nil")
+							continue
+						}
 					}
 				}
 			}
